@@ -33,8 +33,11 @@ def die(msg):
 
 class PairLower:
     """BODY of the pairwise loop"""
-    def __init__(self, fname):
+    def __init__(self, fname, src=None, loopvar=None):
         self.fname = fname
+        self.src = src            # the header text, to find helper functions
+        self.loopvar = loopvar    # index variable of the `for (i = 0; i != n; ++i)` form, or None for the iterator form
+        self.alias = {}           # local name -> side (auto a_class = a->vp[i], ...)
 
     def bad(self, what, node):
         raise mc.Unsupported('%s: %s: %s' % (self.fname, what, mc.show(node)))
@@ -44,7 +47,34 @@ class PairLower:
             return 'SA'
         if e == ('un', '*', ('id', 'b_iter')):
             return 'SB'
+        if e[0] == 'id' and e[1] in self.alias:
+            return self.alias[e[1]]
+        if self.loopvar and e[0] == 'index' and e[2] == ('id', self.loopvar):
+            if e[1] == ('member', ('id', 'a'), 'vp', True):
+                return 'SA'
+            if e[1] == ('member', ('id', 'b'), 'vp', True):
+                return 'SB'
         return None
+
+    def helper(self, x):
+        """a call  h(x, y)  of a bool member `compiler<Policy>::h(const class_* p, class_* q) { return E; }`: E with p, q := x, y"""
+        if not (x[0] == 'call' and x[1][0] == 'id' and len(x[2]) == 2 and self.src is not None):
+            return None
+        sx, sy = self.side(x[2][0]), self.side(x[2][1])
+        if not (sx and sy):
+            return None
+        try:
+            params, body, _ = mc.find_function(self.src, r'\bbool\s+compiler\s*<\s*Policy\s*>\s*::\s*%s\b' % re.escape(x[1][1]), x[1][1])
+        except mc.Unsupported:
+            return None
+        pm = re.fullmatch(r'(?:const)?class_\*(\w+),(?:const)?class_\*(\w+)', re.sub(r'\s+', '', params))
+        ast = mc.parse_function_body(body)
+        st = [t for t in ast[1] if t != ('using',)]
+        if not pm or len(st) != 1 or st[0][0] != 'return' or st[0][1] is None:
+            self.bad('helper %s is not `bool h(class_* p, class_* q) { return E; }`' % x[1][1], x)
+        sub = PairLower(self.fname + '/' + x[1][1], self.src)
+        sub.alias = {pm.group(1): sx, pm.group(2): sy}
+        return sub.e(st[0][1])
 
     def cov_call(self, e, method, nargs):
         """(*x)->covariant_classes.<method>(args) -> (side x, args) or None"""
@@ -60,6 +90,10 @@ class PairLower:
         k = x[0]
         if k == 'bool':
             return '(OConst %s)' % ('true' if x[1] else 'false')
+        if k == 'call':
+            h = self.helper(x)
+            if h is not None:
+                return h
         if k == 'id' and x[1] == 'result':
             return 'OResult'
         if k == 'un' and x[1] == '!':
@@ -111,6 +145,14 @@ class PairLower:
             return 'OContinue'
         if k == 'expr' and st[1][0] == 'assign' and st[1][1] == '=' and st[1][2] == ('id', 'result'):
             return '(OSet %s)' % self.e(st[1][3])
+        if k == 'decl' and st[1] in ('auto', 'const auto'):
+            # auto a_class = a->vp[i], b_class = b->vp[i];   names for the two classes compared
+            for name, init in st[2]:
+                sd = self.side(init) if init is not None else None
+                if sd is None or name in ('result', 'a', 'b'):
+                    self.bad('local declaration not understood', st)
+                self.alias[name] = sd
+            return 'OSkip'
         self.bad('statement not in the subset', st)
 
 
@@ -124,21 +166,42 @@ def pair_function(src, name):
         raise mc.Unsupported('%s: parameters are no longer (const definition* a, const definition* b): %s' % (name, params))
     ast = mc.parse_function_body(body)
     st = [x for x in ast[1] if x != ('using',)]
-    if len(st) != 4:
-        raise mc.Unsupported('%s: body is no longer <result decl; iterator decl; for; return> (%d statements)' % (name, len(st)))
-    d0, d1, loop, ret = st
-    if not (d0[0] == 'decl' and d0[1] == 'bool' and len(d0[2]) == 1 and d0[2][0][0] == 'result' and d0[2][0][1] and d0[2][0][1][0] == 'bool'):
+    d0 = st[0] if st else None
+    if not (d0 and d0[0] == 'decl' and d0[1] == 'bool' and len(d0[2]) == 1 and d0[2][0][0] == 'result' and d0[2][0][1] and d0[2][0][1][0] == 'bool'):
         raise mc.Unsupported('%s: first statement is not `bool result = <constant>;`: %s' % (name, mc.show(d0)))
-    want = ('decl', 'auto', [('a_iter', member_call('a', 'vp', 'begin')), ('a_last', member_call('a', 'vp', 'end')),
-                             ('b_iter', member_call('b', 'vp', 'begin'))])
-    if d1 != want:
-        raise mc.Unsupported('%s: iterator declarations changed: %s' % (name, mc.show(d1)))
-    if not (loop[0] == 'for' and loop[1] is None
-            and loop[2] == ('bin', '!=', ('id', 'a_iter'), ('id', 'a_last'))
-            and loop[3] in (('comma', ('un', '++', ('id', 'a_iter')), ('un', '++', ('id', 'b_iter'))),
-                            ('comma', ('un', '++', ('id', 'b_iter')), ('un', '++', ('id', 'a_iter'))))):
-        raise mc.Unsupported('%s: loop header is no longer `for (; a_iter != a_last; ++a_iter, ++b_iter)`: %s' % (name, mc.show(loop[:4])))
-    lw = PairLower(name)
+    loopvar = None
+    vp_size = ('call', ('member', ('member', ('id', 'a'), 'vp', True), 'size', False), [])
+    if len(st) == 4:
+        # iterator form
+        d1, loop, ret = st[1], st[2], st[3]
+        want = ('decl', 'auto', [('a_iter', member_call('a', 'vp', 'begin')), ('a_last', member_call('a', 'vp', 'end')),
+                                 ('b_iter', member_call('b', 'vp', 'begin'))])
+        if d1 != want:
+            raise mc.Unsupported('%s: iterator declarations changed: %s' % (name, mc.show(d1)))
+        if not (loop[0] == 'for' and loop[1] is None
+                and loop[2] == ('bin', '!=', ('id', 'a_iter'), ('id', 'a_last'))
+                and loop[3] in (('comma', ('un', '++', ('id', 'a_iter')), ('un', '++', ('id', 'b_iter'))),
+                                ('comma', ('un', '++', ('id', 'b_iter')), ('un', '++', ('id', 'a_iter'))))):
+            raise mc.Unsupported('%s: loop header is no longer `for (; a_iter != a_last; ++a_iter, ++b_iter)`: %s' % (name, mc.show(loop[:4])))
+    elif len(st) == 3:
+        # index form:  for (std::size_t i = 0[, n = a->vp.size()]; i != n | i < n | i != a->vp.size() | i < a->vp.size(); ++i)
+        loop, ret = st[1], st[2]
+        init = loop[1] if loop[0] == 'for' else None
+        if not (init and init[0] == 'decl' and init[2] and init[2][0][1] == ('num', 0)):
+            raise mc.Unsupported('%s: loop is neither the iterator form nor `for (size_t i = 0; ...)`: %s' % (name, mc.show(loop[:4])))
+        loopvar = init[2][0][0]
+        bound_names = {nm for nm, iv in init[2][1:] if iv == vp_size}
+        if len(init[2]) - 1 != len(bound_names):
+            raise mc.Unsupported('%s: extra loop variables not understood: %s' % (name, mc.show(init)))
+        cond, step = loop[2], loop[3]
+        ok_bound = lambda e: e == vp_size or (e[0] == 'id' and e[1] in bound_names)
+        if not (cond and cond[0] == 'bin' and cond[1] in ('!=', '<') and cond[2] == ('id', loopvar) and ok_bound(cond[3])):
+            raise mc.Unsupported('%s: loop condition is not `%s != / < a->vp.size()`: %s' % (name, loopvar, mc.show(cond)))
+        if step not in (('un', '++', ('id', loopvar)), ('post', '++', ('id', loopvar))):
+            raise mc.Unsupported('%s: loop step is not ++%s: %s' % (name, loopvar, mc.show(step)))
+    else:
+        raise mc.Unsupported('%s: body is no longer <result decl; [iterator decl;] for; return> (%d statements)' % (name, len(st)))
+    lw = PairLower(name, src, loopvar)
     body_c = lw.s(loop[4])
     if ret[0] != 'return' or ret[1] is None:
         raise mc.Unsupported('%s: last statement is not a return with a value' % name)
